@@ -178,7 +178,8 @@ def draw_config(rng, family, wmax=16, dmax=8, nodes_max=4, events=(20, 80), **ov
         pool = base_pool(rng, cfg.get("mkl"))
     cfg["pool"] = [hexk(k) for k in pool]
     if over.get("thresholds", True):
-        plan_threshold(rng, cfg, shared_ok=bool(over.get("thr_shared")), run_index=over.get("run_index"))
+        plan_threshold(rng, cfg, shared_ok=bool(over.get("thr_shared")), run_index=over.get("run_index"),
+                       only_dims=over.get("thr_dims"), every=over.get("thr_every"))
     return cfg
 
 
@@ -200,12 +201,13 @@ def _fill_keys(rng, cfg, thr):
 THRESHOLD_EVERY = 12  # every 12th run of a batch is a threshold run
 
 
-def plan_threshold(rng, cfg, shared_ok=False, run_index=None):
+def plan_threshold(rng, cfg, shared_ok=False, run_index=None, only_dims=None, every=None):
     """Constant-guided swarm: every THRESHOLD_EVERY-th run sizes one dimension of its
     workload around a constant harvested from the tree under test (see consts.py). The
     (constant, dimension) pairs are walked round-robin over the batch, so that every pair
     is exercised several times per batch whatever the seed."""
-    if run_index is None or run_index % THRESHOLD_EVERY != 7:
+    every = every or THRESHOLD_EVERY
+    if run_index is None or run_index % every != min(7, every - 1):
         return cfg
     cs = _consts()["ints"]
     if not cs:
@@ -218,12 +220,14 @@ def plan_threshold(rng, cfg, shared_ok=False, run_index=None):
         dims += ["table_bytes"]
     if shared_ok:
         dims += ["shm_multiple"]
+    if only_dims:
+        dims = [d for d in dims if d in only_dims]
     limits = {"mult": 1 << 26, "list_len": 1 << 17, "ngram_windows": (1 << 17) if fam == "hll" else 2048, "key_len": 4096,
               "cells": (1 << 12) if fam == "hh" else (1 << 21), "table_bytes": 1 << 25, "shm_multiple": 1 << 16}
     pairs = [(C, d) for d in dims for C in cs if C <= limits[d]]
     if not pairs:
         return cfg
-    C, dim = pairs[(run_index // THRESHOLD_EVERY) % len(pairs)]
+    C, dim = pairs[(run_index // every) % len(pairs)]
     itemsize = {"linear": 4, "log16": 2, "log8": 1}.get(fam, 1)
     thr = {"dim": dim, "C": C}
     if dim == "list_len" and C <= (1 << 17):
